@@ -33,10 +33,15 @@ def main():
     ap = argparse.ArgumentParser()
     ap.add_argument("--jobs", type=int, default=3)
     ap.add_argument("--only")
+    ap.add_argument("--start", type=int, default=0, help="skip the first N seeds (sorted order)")
+    ap.add_argument("--reverse", action="store_true", help="newest rounds of the highest-numbered properties first")
     args = ap.parse_args()
     dirs = sorted(glob.glob(os.path.join(VERIF, "seeded", "*", "")))
     if args.only:
         dirs = [d for d in dirs if args.only in d]
+    dirs = dirs[args.start:]
+    if args.reverse:
+        dirs.reverse()
     per = max(2, 16 // args.jobs)
     missed = 0
     with concurrent.futures.ThreadPoolExecutor(args.jobs) as ex:
